@@ -1227,6 +1227,10 @@ func topStmtReady(s InjectorStmt) bool {
 			vs.Forall(len(vs.As[*InjectorChainStmt](s).Statements), func(i int) bool { return threadStmtReady(vs.As[*InjectorChainStmt](s).Statements[i]) }))
 }
 
+func statementsReady(injector *Injector) bool {
+	return vs.Forall(len(injector.Stmts), func(k int) bool { return topStmtReady(injector.Stmts[k]) })
+}
+
 // fallibleOnlyIfErrorResult (C06): a provider that can fail is only scheduled in an injector that can return an error.
 func fallibleOnlyIfErrorResult(injector *Injector) bool {
 	return vs.Forall(len(injector.Stmts), func(i int) bool {
@@ -1684,6 +1688,9 @@ func contract_Graph_injectContextArg(g *Graph, injector *Injector, metaData *Met
 	vs.Ensures("import_tables_stay_nonnil", allImportTablesStayNonNil())
 	// the parameter list stays ready for the signature emitter
 	vs.Ensures("args_stay_ready", vs.Implies(vs.Old(argsHaveTypes(injector)), argsHaveTypes(injector) && injectorArgsReady(injector)))
+	// ... and the statements stay ready for the statement emitters (proved here, where the frame is small, rather than
+	// re-derived by the caller)
+	vs.Ensures("statements_stay_ready", vs.Implies(vs.Old(statementsReady(injector)), statementsReady(injector)))
 	vs.Modifies(gCtxParam, injector.Args, injector.Params, vs.FieldOfAll(injector.Args[0].Param.refCounter), vs.FieldOfAll(injector.Args[0].Param.withChannel),
 		vs.FieldOfAll(metaData.Imports[""].IsUsed), metaData.Imports, varPool.vars)
 	vs.Allocates()
